@@ -28,17 +28,38 @@ def scan (num : Nat) : Nat → Nat → Nat → Nat
   | 0, count, _ => count
   | fuel+1, count, mask => if num / mask % 2 = 1 then count else scan num fuel (count + 1) (mask / 2)
 
-/-- `uint2tenbytefloat (num, bytes)` on a zeroed 10-byte array -/
+/-- `uint2tenbytefloat (num, bytes)` on a zeroed 10-byte array (num is a uint32_t): the most significant bit is
+    shifted up to bit 31 and the exponent byte is 30 - count -/
 def int2ten (num : Nat) : List Byte :=
+  if num ≤ 1 then [0x3F, 0xFF, 0x80, 0, 0, 0, 0, 0, 0, 0] else
+  let count := scan num 32 0 0x80000000
+  let sh := (num * 2 ^ count) % 2 ^ 32
+  [0x40, wrapU 8 (30 - (count : Int)), sh / 2 ^ 24 % 256, sh / 2 ^ 16 % 256, sh / 2 ^ 8 % 256, sh % 256, 0, 0, 0, 0]
+
+/-- `tenbytefloat2int (bytes)`; the four or-ed fields `b2<<23 | b3<<15 | b4<<7 | b5>>1` occupy disjoint bit
+    ranges for byte values, so the or is a sum.  Exponents up to 0x401D (values below 2^31) are converted. -/
+def ten2int (b : List Byte) : Int :=
+  let b0 := b.getD 0 0
+  let b1 := b.getD 1 0
+  if b0 ≥ 0x80 then 0 else
+  if b0 ≤ 0x3F then 1 else
+  if b0 > 0x40 then 0x4000000 else
+  if b1 > 0x1D then 800000000 else
+  let val := b.getD 2 0 * 2 ^ 23 + b.getD 3 0 * 2 ^ 15 + b.getD 4 0 * 2 ^ 7 + b.getD 5 0 / 2
+  ((val / 2 ^ (29 - b1) : Nat) : Int)
+
+/-! ### the rule before the repair of KF-AIFF-RATE-2P30 (kept for the `_old_rule` theorems) -/
+
+/-- the writer gave up at 0x40000000 and stored only the exponent bytes 40 1D -/
+def int2tenOld (num : Nat) : List Byte :=
   if num ≤ 1 then [0x3F, 0xFF, 0x80, 0, 0, 0, 0, 0, 0, 0] else
   if num ≥ 0x40000000 then [0x40, 0x1D, 0, 0, 0, 0, 0, 0, 0, 0] else
   let count := scan num 32 0 0x40000000
   let sh := if count < 31 then (num * 2 ^ (count + 1)) % 2 ^ 32 else 0
   [0x40, wrapU 8 (29 - (count : Int)), sh / 2 ^ 24 % 256, sh / 2 ^ 16 % 256, sh / 2 ^ 8 % 256, sh % 256, 0, 0, 0, 0]
 
-/-- `tenbytefloat2int (bytes)`; the four or-ed fields `b2<<23 | b3<<15 | b4<<7 | b5>>1` occupy disjoint bit
-    ranges for byte values, so the or is a sum -/
-def ten2int (b : List Byte) : Int :=
+/-- the reader answered 800000000 for every exponent above 0x401C -/
+def ten2intOld (b : List Byte) : Int :=
   let b0 := b.getD 0 0
   let b1 := b.getD 1 0
   if b0 ≥ 0x80 then 0 else
@@ -189,20 +210,34 @@ def write (c : Cfg) (k : Kind) (s : St) (enc : List Byte) (peaks : Option (List 
 /-- SFC_UPDATE_HEADER_NOW -/
 def update (c : Cfg) (k : Kind) (s : St) : St := writeHeader c k s true
 
-/-- `aiff_write_tailer`: pad byte when the data ends at an odd offset (PEAK is at the start, no strings) -/
+/-- `aiff_write_tailer` for a handle opened with SFM_WRITE (dataend is 0 until here): dataend becomes the end of
+    the audio; a pad byte follows when that offset is odd and is NOT part of the SSND chunk
+    (PEAK is at the start, no strings) -/
 def writeTailer (s : St) : St :=
   let e : Int := (s.hdr ++ s.data).length
-  if e % 2 = 1 then { s with tail := [0], dataend := e + 1 } else { s with tail := [], dataend := e }
+  if e % 2 = 1 then { s with tail := [0], dataend := e } else { s with tail := [], dataend := e }
 
 /-- `aiff_close` -/
 def close (c : Cfg) (k : Kind) (s : St) : St := writeHeader c k (writeTailer s) true
+
+/-- the tailer before the repair of KF-AIFF-ODD-PAD: dataend was advanced past the pad byte, so the SSND size and
+    the COMM frame count written at close included it -/
+def writeTailerOld (s : St) : St :=
+  let e : Int := (s.hdr ++ s.data).length
+  if e % 2 = 1 then { s with tail := [0], dataend := e + 1 } else { s with tail := [], dataend := e }
+
+def closeOld (c : Cfg) (k : Kind) (s : St) : St := writeHeader c k (writeTailerOld s) true
 
 /-! ### closed forms used by the theorems and the driver -/
 
 def padLen (dataLen : Nat) : Nat := dataLen % 2
 
-/-- header of a closed file holding `dataLen` audio bytes -/
+/-- header of a closed file holding `dataLen` audio bytes: exact frame count and SSND size, FORM counts the pad -/
 def closedHdr (c : Cfg) (k : Kind) (dataLen : Nat) (peaks : Option (List Peak)) : List Byte :=
+  hdrRaw c k (dataLen / c.bw) (hdrLen c k + dataLen + padLen dataLen : Nat) (dataLen : Nat) peaks
+
+/-- the same under the old tailer rule (pad byte counted as audio) -/
+def closedHdrOld (c : Cfg) (k : Kind) (dataLen : Nat) (peaks : Option (List Peak)) : List Byte :=
   hdrRaw c k ((dataLen + padLen dataLen) / c.bw) (hdrLen c k + dataLen + padLen dataLen : Nat) (dataLen + padLen dataLen : Nat) peaks
 
 /-- header after SFC_UPDATE_HEADER_NOW with `dataLen` audio bytes in the store -/
